@@ -101,7 +101,7 @@ def run(ctx):
     import contextlib
     from fast_ticc import front_end, admm, cluster_label_assignment as cla, graphical_lasso as gl
     rng = np.random.default_rng(ctx.seed)
-    ctx.proof_layer(allowed_axioms=(), coq_deps=[], gen=["front_single", "front_joint", "la_predict"])
+    ctx.proof_layer(allowed_axioms=(), coq_deps=[], gen=["front_single", "front_joint", "la_predict", "ua_print"])
     core.note_drift(ctx, ANCHORS)
     # ---- (a) inventory tie
     exp = json.load(open(os.path.join(core.VERIF, "vcheck", "expected_inventory.json")))
